@@ -1292,7 +1292,13 @@ impl SymSut {
         let mut d = dump_api(self.sut.storage(), &self.clients(), &ids);
         if self.sut.spec.is_sql() {
             let raw = dump_sql_raw(self.sut.dir().unwrap());
-            if raw.clients != d.clients {
+            // the stored representation of the snapshot time is the backend's business: the
+            // API view is authoritative for it, the raw column only has to stay unchanged
+            // where nothing may change (compared as text by C18)
+            let strip = |m: &BTreeMap<Uuid, (Uuid, Option<(Uuid, u64, i64, Vec<u8>)>)>| -> BTreeMap<Uuid, (Uuid, Option<(Uuid, u64, Vec<u8>)>)> {
+                m.iter().map(|(k, (l, s))| (*k, (*l, s.as_ref().map(|(v, n, _, b)| (*v, *n, b.clone()))))).collect()
+            };
+            if strip(&raw.clients) != strip(&d.clients) {
                 d.anomalies.push(format!(
                     "raw clients table {:?} differs from API view {:?}",
                     raw.clients, d.clients
@@ -1323,7 +1329,25 @@ impl SymSut {
     /// connection), API view for the in-memory backend.
     pub fn dump_fast(&self) -> Dump {
         if self.sut.spec.is_sql() {
-            dump_sql_raw(self.sut.dir().unwrap())
+            let mut d = dump_sql_raw(self.sut.dir().unwrap());
+            // snapshot times through the API (see dump_concrete)
+            let with_snap: Vec<Uuid> = d.clients.iter().filter(|(_, (_, s))| s.is_some()).map(|(c, _)| *c).collect();
+            for c in with_snap {
+                let st = self.sut.storage().clone();
+                let ts = catch_unwind(AssertUnwindSafe(|| -> Option<i64> {
+                    let mut txn = st.txn(c).ok()?;
+                    txn.get_client().ok()??.snapshot.map(|s| s.timestamp.timestamp())
+                }));
+                match ts {
+                    Ok(Some(t)) => {
+                        if let Some((_, Some(s))) = d.clients.get_mut(&c) {
+                            s.2 = t;
+                        }
+                    }
+                    _ => d.anomalies.push(format!("client {c}: snapshot columns are set but the API reports no snapshot")),
+                }
+            }
+            d
         } else {
             dump_api(self.sut.storage(), &self.clients(), &self.tab.all_uuids())
         }
